@@ -48,6 +48,8 @@ pub fn run_case(ctx: &mut Ctx, case: &Value) {
         if !ok {
             ctx.report.diff("property", "Issuer::encode", "Issuer::encode:disclosure-content", case, json!({"disclosure": d, "decoded": dec, "expected": sd}));
         }
+        let alg = ic.sd_alg.clone();
+        compare_with_model_string(ctx, case, &alg, &d, None, &dec);
     }
     // the independent verifier on the bytes: all disclosures, and sub-lists
     let mut rng = Rng::fork(ctx.seed ^ 0xC07, crate::report::hash_of(&case["tree"]));
@@ -74,6 +76,30 @@ pub fn run_case(ctx: &mut Ctx, case: &Value) {
             c2["sublist"] = json!(s);
             ctx.report.diff("property", "Issuer::encode", "Issuer::encode:reference-verifier-disagrees", &c2, json!({"ref": resp["ref"], "expected": expected[i], "sublist": s}));
         }
+    }
+}
+
+/// The model's `Disclosure::build` on the salt the real one drew (`Codec.discString` / `Codec.hash`,
+/// `Impl/Codec.lean`): the real disclosure string must be that string byte for byte and its digest that hash,
+/// as long as the crate writes the JSON text the way the model's printer does (compact, members sorted). Another
+/// layout of the same array is no violation of C07 (the content is compared separately): it is counted, not
+/// reported. Also records whether the driver's JSON text codec read back what it wrote for this array.
+fn compare_with_model_string(ctx: &mut Ctx, case: &Value, alg: &str, real_string: &str, real_digest: Option<&str>, dec: &Option<Vec<Value>>) {
+    let a = match dec { Some(a) if (a.len() == 2 || a.len() == 3) && a[0].is_string() && (a.len() == 2 || a[1].is_string()) => a, _ => return };
+    let req = json!({"op": "disc_string", "alg": alg, "salt": a[0], "key": if a.len() == 3 { a[1].clone() } else { Value::Null }, "value": a[a.len() - 1]});
+    let r = ctx.driver.ask(&req);
+    if r["roundtrip"] != json!(true) {
+        ctx.report.diff("internal", "Exec.codec", "Exec.codec:parse-of-render-differs", case, json!({"array": a}));
+    }
+    if r["s"].as_str() == Some(real_string) {
+        ctx.report.bump("disclosure-text:byte-for-byte-as-model");
+        if let Some(g) = real_digest {
+            if r["h"].as_str() != Some(g) {
+                ctx.report.diff("correspondence", "Disclosure::build", "Disclosure::build:digest-differs-from-model", case, json!({"real": g, "model": r["h"], "disclosure": real_string}));
+            }
+        }
+    } else {
+        ctx.report.bump("issued:disclosure-text-in-other-layout-than-model");
     }
 }
 
@@ -113,6 +139,7 @@ fn disclosure_api(ctx: &mut Ctx, rng: &mut Rng, rounds: usize) {
                     ctx.report.diff("property", "Disclosure::build", "Disclosure::build:not-as-specified", &case,
                         json!({"disclosure": s, "digest": d.digest(), "expected_digest": expected_digest, "decoded": dec, "content_ok": content_ok, "salt_ok": salt_ok}));
                 }
+                compare_with_model_string(ctx, &case, alg_name, &s, Some(d.digest().as_str()), &dec);
                 // and back
                 let back = real::guard(|| Disclosure::from_base64(&s, alg));
                 match &back {
